@@ -80,12 +80,22 @@ def compare_full(ctx: Ctx, rule: str, construct: str, func: Func, spec_src: str,
 
 
 def equivalent(prog, func: Func, spec_src: str, **opts) -> bool:
-    """Summary of `func` equals the summary of the table text (returned value, stores, effects), modulo the normal form."""
+    """Summary of `func` equals the summary of the table text (returned value, stores, effects), modulo the normal form.
+    When the plain summaries differ, a second reading executes delegations to base-class methods (`Base.m(self, ...)`,
+    `super().m(...)`) in place on both sides: replacing a repeated block by a call of the inherited method is the same function."""
+    if _equivalent_once(prog, func, spec_src, **opts):
+        return True
+    if "inline_delegation" not in opts:
+        return _equivalent_once(prog, func, spec_src, **dict(opts, inline_delegation=2))
+    return False
+
+
+def _equivalent_once(prog, func: Func, spec_src: str, **opts) -> bool:
     try:
         code, cb = terms.function_term(prog, func, None, **opts)
         tree = ast.parse(spec_src.strip())
         sopts = {k: v for k, v in opts.items() if k in ("positive", "erase_casts", "erase_validation", "keep_raises", "track_locals", "track_effects",
-                                                       "summarise_loops", "erase_persistence", "bind_args")}
+                                                       "summarise_loops", "erase_persistence", "bind_args", "inline_delegation")}
         sb = terms.Builder(prog, func, {}, inline_depth=0, inline_new=0, **sopts)
         spec = sb.run(strip_doc(tree.body[0].body))
         if sb.track_effects:
